@@ -716,8 +716,8 @@ fn run_format<const FMT: u128>(cx: &mut Cx, d: &Desc, idx: usize, seed: u64, rep
     }
     let radix = d.radix as u32;
     let nvariants = if cx.small { 1 } else { 3 };
-    let nspecs = if cx.small { 10 } else if cx.thorough { 160 } else { 40 };
-    let nrand = if cx.small { 24 } else if cx.thorough { 6000 } else { 300 };
+    let nspecs = if cx.small { 10 } else if cx.thorough { 72 } else { 40 };
+    let nrand = if cx.small { 24 } else if cx.thorough { 1500 } else { 300 };
     let with_f32 = idx % 2 == 0;
     for variant in 0..nvariants {
         let mut orng = Rng::stream(seed, 7500 + idx as u64 * 5 + variant as u64);
@@ -742,7 +742,7 @@ fn run_format<const FMT: u128>(cx: &mut Cx, d: &Desc, idx: usize, seed: u64, rep
             if is32 && !with_f32 {
                 continue;
             }
-            let mut vals = wgen::float_values(kind, radix, &mut rng, nrand, cx.thorough && idx % 8 == 0);
+            let mut vals = wgen::float_values(kind, radix, &mut rng, nrand, false);
             if cx.small {
                 let keep: Vec<u64> = (0..18).map(|_| vals[rng.below(vals.len() as u64) as usize]).collect();
                 vals = keep;
@@ -817,7 +817,7 @@ fn default_info<T: LFloat, const FMT: u128>(cx: &mut Cx, d: &Desc, plain: &WSpec
 fn run_default_api(cx: &mut Cx, seed: u64, shard: usize, nshards: usize) {
     let d = Desc::STANDARD;
     let mut rng = Rng::stream(seed, 7999);
-    let nint = if cx.small { 20 } else if cx.thorough { 20000 } else { 1500 };
+    let nint = if cx.small { 20 } else if cx.thorough { 6000 } else { 1500 };
     // work items are dealt to the shards round-robin: 12 integer types, f64 x4, f32 x4, the parse corpus
     let mut item = 0usize;
     let mut mine = || {
@@ -836,7 +836,7 @@ fn run_default_api(cx: &mut Cx, seed: u64, shard: usize, nshards: usize) {
     }
     vharness::for_int_types!(ints);
     for (is32, kind) in [(false, oracle::F64), (true, oracle::F32), (false, oracle::F64), (true, oracle::F32), (false, oracle::F64), (true, oracle::F32), (false, oracle::F64), (true, oracle::F32)] {
-        let mut vals = wgen::float_values(kind, 10, &mut rng, if cx.small { 50 } else if cx.thorough { 50_000 } else { 2000 }, cx.thorough);
+        let mut vals = wgen::float_values(kind, 10, &mut rng, if cx.small { 50 } else if cx.thorough { 20_000 } else { 2000 }, false);
         if cx.small {
             let keep: Vec<u64> = (0..40).map(|_| vals[rng.below(vals.len() as u64) as usize]).collect();
             vals = keep;
